@@ -37,8 +37,11 @@ LEVEL_TEXT = ("Coq theorems over the reals about the executable Gallina model of
               "inserting r times and removing r times restores the control points exactly; removing j <= r copies leaves the (r-j)-fold insertion "
               "result; at every pass the Eq. 5.30 test distance is exactly 0 (a previously inserted knot is found removable for any tolerance); the "
               "evaluated points are unchanged; the same for surfaces (u, v) and volumes (u, v, w). Bounded: removal after refinement only for one "
-              "refined knot. Tied by correspondence/oracle only: several directions removed in one call, the tolerance-based multiplicity/span "
-              "lookup, the object wrappers.")
+              "refined knot. Round 3 (Proofs/KnotRemMultiDir.v, [G]): several directions in ONE insert_knot call followed by ONE remove_knot call "
+              "with the same parameters and counts returns the original record (degrees, knot vectors, sizes, whole net) for surfaces and volumes - "
+              "insertions in different directions commute on control nets, and the tolerance-based multiplicity / span lookups of remove_knot "
+              "answer s + r and k + r after the insertion. Tied by correspondence/oracle only: smaller removal counts than insertion counts in a "
+              "multi-direction call, the object wrappers.")
 LEVEL_NOTE = ("The model describes helpers.knot_removal after fixes/C06-knot-removal.diff (alignment with Algorithm A5.8). It is tied to /repo by the "
               "sampled correspondence check (tolerance 1e-9). Shape preservation in the theorems is stated on control nets (insertion of the "
               "removed knot gives back the net); its equivalence with equality of evaluated points is C04's insertion theorem.")
